@@ -354,7 +354,8 @@ def thread_jumps(raw, rounds=8):
                 chain.append(cur)
                 stmts = stmts + m["stmts"]
                 mt = m["term"]
-                if mt["k"] == "goto":
+                if mt["k"] == "goto" or (mt["k"] == "drop" and mt.get("target") is not None):
+                    # a drop on the way is kept: the whole chain is then duplicated block by block (see below)
                     cur = mt["target"]
                     continue
                 if mt["k"] == "switch":
@@ -372,7 +373,8 @@ def thread_jumps(raw, rounds=8):
                 # not constant: if the switched value is computed in this very block (an inlined predicate's
                 # `return a != b`), move the switch here so that it is described by that computation
                 m = blocks[cur] if chain and chain[-1] == cur else None
-                if t["k"] == "goto" and m is not None and m["term"]["k"] == "switch" and _defined_in(b["stmts"], stmts, m["term"]["discr"]):
+                if t["k"] == "goto" and m is not None and m["term"]["k"] == "switch" and \
+                        not any(blocks[c]["term"]["k"] == "drop" for c in chain) and _defined_in(b["stmts"], stmts, m["term"]["discr"]):
                     extra = []
                     for c in chain:
                         extra += copy.deepcopy(blocks[c]["stmts"])
@@ -383,6 +385,23 @@ def thread_jumps(raw, rounds=8):
                 continue
             if not _const_env(own_stmts):
                 continue          # nothing constant set here: not a boolean-temporary join
+            if any(blocks[c]["term"]["k"] == "drop" for c in chain):
+                # duplicate the chain including its drops: b -> copy(c1) -> copy(c2) .. -> hit
+                nxt = hit
+                for c in reversed(chain):
+                    cb = blocks[c]
+                    ct = cb["term"]
+                    if ct["k"] == "drop":
+                        nt = dict(copy.deepcopy(ct), target=nxt, threaded=True)
+                    else:
+                        nt = {"k": "goto", "target": nxt, "span": ct["span"], "threaded": True}
+                    blocks.append({"cleanup": False, "stmts": copy.deepcopy(cb["stmts"]), "term": nt, "synthetic": True,
+                                   "from": cb.get("from")})
+                    nxt = len(blocks) - 1
+                b["term"] = dict(t, target=nxt, threaded=True)
+                progress = True
+                changed += 1
+                continue
             extra = []
             for c in chain:
                 extra += copy.deepcopy(blocks[c]["stmts"])
